@@ -428,3 +428,156 @@ def naive_aggregator_orientation(ctx, F, r):
 
 def engine_name(callee):
     return callee.get("name") or (callee.get("path") or "").rsplit("::", 1)[-1]
+
+
+def finalize_length_source(ctx, F, r):
+    """Ok value's length part is LengthEncoding::new(processed_len().unwrap_or(u32::MAX)).unwrap()."""
+    M, err = finalize_model(F)
+    ctx.instance(r)
+    if M is None:
+        ctx.missing(r, err, cfg=F.key)
+        return
+    oks = [p for p in M.paths if p["end"] == "return" and p["res"][0] == "Ok"]
+    if not oks:
+        ctx.missing(r, "Ok path in finalize_with_options", cfg=F.key)
+        return
+    want_len = ("call", "core::option::Option::<T>::unwrap", (("call", "length::FuzzyHashLengthEncoding::new",
+                (("call", "core::option::Option::<T>::unwrap_or", (("call", V("pl"), (("ref", ("deref", P(1))),)), C(0xFFFFFFFF))),)),))
+    bad = []
+    for p in oks:
+        v = n(p["res"][1])
+        ok = v[0] == "call" and len(v[2]) == 4
+        m = match(want_len, v[2][2]) if ok else None
+        if not (m and m["pl"].endswith("processed_len")):
+            bad.append(sym.fmt(v[2][2]) if ok else sym.fmt(v))
+    ctx.ob(r, ("finalize", "length-part"), not bad,
+           "length part of the finalized hash is %s; reference LengthEncoding::new(processed_len().unwrap_or(u32::MAX)).unwrap()" % bad[:1],
+           cfg=F.key, where=M.body.where())
+    # third argument of from_raw is the length field
+    fr = [x for x in F.bodies if x.name == "from_raw" and x.d.get("impl", "").startswith("hash::inner::FuzzyHash<")]
+    hf = hash_fields(F)
+    if len(fr) == 1 and hf:
+        ps = [q for q in sym.Sym(fr[0]).paths() if q.end == "return"]
+        e = n(ps[0].ret) if len(ps) == 1 else None
+        ok = e is not None and e[0] == "agg" and len(e[2]) == 4
+        if ok:
+            order = {hf["body"]: P(1), hf["checksum"]: P(2), hf["lvalue"]: P(3), hf["qratios"]: P(4)}
+            ok = all(e[2][i] == order[i] for i in range(4))
+        ctx.ob(r, ("FuzzyHash::from_raw", "field-order"), ok, "from_raw does not store (body, checksum, lvalue, qratios) into the same-named fields: %s" % (sym.fmt(e) if e else e), cfg=F.key, where=fr[0].where())
+    else:
+        ctx.missing(r, "hash::inner::FuzzyHash::from_raw", cfg=F.key)
+
+
+# ---------------------------------------------------------------------------
+# decision tables over enum discriminants
+
+
+def enum_decision(F, path, param_enums):
+    """Evaluate a function whose branches only test enum discriminants of its parameters.
+    param_enums: {param index: enum path}.  Returns ({(variant names...): result expr}, error)."""
+    import itertools
+    b = F.fn(path)
+    if b is None:
+        return None, "function %s not found" % path
+    paths = [p for p in sym.Sym(b).paths()]
+    enums = {k: enum_variants(F, v) for k, v in param_enums.items()}
+    if any(v is None for v in enums.values()):
+        return None, "enum layout not found"
+    keys = sorted(enums)
+    table = {}
+    for combo in itertools.product(*[sorted(enums[k].items(), key=lambda kv: kv[1]) for k in keys]):
+        val = {k: combo[i][1] for i, k in enumerate(keys)}
+        res = None
+        hits = 0
+        for p in paths:
+            ok = True
+            for (_, d, taken, vals) in p.conds:
+                e = n(d)
+                # discr(param k) or discr(load(deref(param k)))
+                m = match(("discr", V("x")), e)
+                who = None
+                if m:
+                    x = m["x"]
+                    if x[0] == "param":
+                        who = x[1]
+                    elif x == ("load", ("deref", x[1][1])) if x[0] == "load" and x[1][0] == "deref" else False:
+                        who = x[1][1][1] if x[1][1][0] == "param" else None
+                if who is None or who not in val:
+                    return None, "unrecognised condition %s in %s" % (sym.fmt(e), path)
+                v = val[who]
+                if taken == "otherwise":
+                    if v in vals:
+                        ok = False
+                        break
+                elif v != taken:
+                    ok = False
+                    break
+            if ok:
+                hits += 1
+                res = (p.end, n(p.ret) if p.ret else None)
+        if hits != 1:
+            return None, "assignment %s matches %d paths in %s" % (val, hits, path)
+        table[tuple(c[0] for c in combo)] = res
+    return table, None
+
+
+def finalize_table(F, M):
+    """Evaluate the finalize path model on every combination of option values and data outcomes.
+    Returns (rows, error); a row is (opts dict, data dict, result)."""
+    import itertools
+    setters = option_setters(F)
+    if not setters:
+        return None, "option setters not recognised"
+    need = {"allow_small_size_files", "allow_statistically_weak_buckets_half", "allow_statistically_weak_buckets_quarter", "pure_integer_qratio_computation"}
+    if not need <= set(setters):
+        return None, "option setters missing: %s" % sorted(need - set(setters))
+    tab, err = enum_decision(F, "length::DataLengthValidity::is_err_on", {1: "length::DataLengthValidity", 2: "length::DataLengthProcessingMode"})
+    if tab is None:
+        return None, err
+    validity = enum_variants(F, "length::DataLengthValidity")
+    rows = []
+    rets = [p for p in M.paths if p["end"] == "return"]
+    for small, half, quarter, cons, pure in itertools.product((0, 1), repeat=5):
+        flags = {}
+        for nm, on in (("allow_small_size_files", small), ("allow_statistically_weak_buckets_half", half),
+                       ("allow_statistically_weak_buckets_quarter", quarter), ("pure_integer_qratio_computation", pure)):
+            f, mask = setters[nm]
+            flags[f] = flags.get(f, 0) | (mask if on else 0)
+        mode = "Conservative" if cons else "Optimistic"
+        for vname in validity:
+            gate = tab[(vname, mode)]
+            if gate[0] != "return" or gate[1][0] != "const":
+                return None, "is_err_on(%s,%s) is %s" % (vname, mode, gate)
+            G = bool(gate[1][1])
+            for Z, H in itertools.product((False, True), repeat=2):
+                hit = []
+                for p in rets:
+                    ok = True
+                    for e in p["events"]:
+                        if e[0] == "len_gate":
+                            ok = e[1] == G
+                        elif e[0] == "validity":
+                            if e[1].startswith("not:"):
+                                ok = vname not in e[1][4:].split(",")
+                            else:
+                                ok = e[1] == vname
+                        elif e[0] == "flag":
+                            f, kind, mask = e[1]
+                            cur = flags.get(f, 0)
+                            val = (cur & mask) == mask if kind == "contains" else (cur & mask) != 0
+                            ok = e[2] == val
+                        elif e[0] == "zero_test":
+                            ok = e[1] == Z
+                        elif e[0] == "lt_const":
+                            ok = e[1] == H
+                        else:
+                            return None, "unknown event in finalize path"
+                        if not ok:
+                            break
+                    if ok:
+                        hit.append(p)
+                if len(hit) != 1:
+                    return None, "assignment matches %d finalize paths" % len(hit)
+                rows.append(({"small": small, "half": half, "quarter": quarter, "cons": cons, "pure": pure},
+                             {"validity": vname, "Z": Z, "H": H, "gate": G}, hit[0]["res"]))
+    return rows, None
